@@ -51,12 +51,34 @@ def exotic_library(seed, idx):
             lines = ['/**', ' * %s:%s' % (name, rng.choice(['', '', ' (skip)', ' (rename-to foo_exo0)' if i else '']))]
             for sp, pn in params:
                 ann = rng.choice(['', '', '(skip)', '(scope call)', '(element-type utf8)', '(nullable)', '(type gint)', '(array length=p0)' if pn != 'p0' and params[0][0] == 'gint' else ''])
+                if sp == 'GHashTable *' and rng.random() < 0.7:
+                    # every combination of bindable and non-bindable key and value types
+                    ann = '(element-type %s %s)' % (rng.choice(['utf8', 'gint', 'FooSkipped', 'XyzUnknown', 'FooBig', 'FooRec']),
+                                                     rng.choice(['utf8', 'FooRec', 'FooSkipped', 'XyzUnknown', 'FooBig']))
+                elif sp in ('GList *', 'GSList *', 'GPtrArray *') and rng.random() < 0.7:
+                    ann = '(element-type %s)' % rng.choice(['utf8', 'FooRec', 'FooSkipped', 'XyzUnknown', 'FooBig'])
                 lines.append(' * @%s: %s%s' % (pn, (ann + ': ') if ann else '', 'a value'))
             lines.append(' *')
             if ret != 'void':
                 lines.append(' * Returns: %s' % rng.choice(['', '(transfer none)', '(transfer full)', '(element-type utf8) (transfer container)', '(skip)']))
             lines.append(' */')
             src.add('\n'.join(lines))
+    # containers whose element types are or are not bindable, one container per callable so that nothing else decides
+    for k in range(3):
+        cont = rng.choice(['GHashTable *', 'GHashTable *', 'GList *', 'GPtrArray *'])
+        good, bad = ['utf8', 'gint', 'FooRec'], ['FooSkipped', 'XyzUnknown', 'FooBig']
+        if cont == 'GHashTable *':
+            et = '%s %s' % (rng.choice(good + bad[:1]), rng.choice(good + bad + bad))
+        else:
+            et = rng.choice(good + bad)
+        as_return = rng.random() < 0.3
+        name = 'foo_cont%d' % k
+        if as_return:
+            hdr.add(apigen.render_function(name, cont, [('gint', 'x')]))
+            src.add('/**\n * %s:\n * @x: a value\n *\n * Returns: (element-type %s) (transfer none): a container\n */\n' % (name, et))
+        else:
+            hdr.add(apigen.render_function(name, 'void', [(cont, 'c')]))
+            src.add('/**\n * %s:\n * @c: (element-type %s): a container\n */\n' % (name, et))
     # a record with exotic fields and a callback typedef with exotic parameters
     hdr.add('typedef struct _FooExoRec FooExoRec;\nstruct _FooExoRec {\n' + ''.join(
         '  %s;\n' % apigen.decl(rng.choice([t for t in EXOTIC_TYPES if t not in ('va_list',)]), 'f%d' % k) for k in range(rng.choice([2, 4, 6]))) + '};')
